@@ -631,6 +631,26 @@ def xreload (w : World) (i : ReloadIn) : World × Except Err Id :=
         | .error e => ({ heap := s.heap, sysmods := sm2 }, .error e)
       | _ => ({ heap := s.heap, sysmods := sm2 }, .error .stuck)
 
+/-! ### the "does the file need reloading" guard of `_xreload_module` (force = False) -/
+
+/-- `if old_loadtime > mtime: return None` — a reload is skipped on account of the times only when the module was
+    loaded *strictly later* than the file was last written.  `loadtime` is `module.__loadtime__` (the mtime of the file
+    at the last successful reload) or the process start time; both in nanoseconds. -/
+def reloadNeeded (loadtime mtime : Nat) : Bool := !(decide (loadtime > mtime))
+
+inductive Guarded where
+  | notModified                       -- returned None without reading the file
+  | sameText                          -- file re-read, text equal to linecache's copy: returned the module
+  | ran (r : Except Err Id)           -- the reload was attempted
+  deriving Repr, Inhabited
+
+/-- `_xreload_module(module, filename)`: the guard, then `xreload` -/
+def xreloadGuarded (w : World) (i : ReloadIn) (loadtime mtime : Nat) (sameText : Bool) : World × Guarded :=
+  if !reloadNeeded loadtime mtime then (w, .notModified)
+  else if sameText then (w, .sameText)
+  else ((xreload w i).1, .ran (xreload w i).2)
+
+
 /-- variant that also returns the heap when livepatch itself fails (to state that this failure is *not* rolled back) -/
 def lpRun (cx : Ctx) (fuel : Nat) (assumeModule : Bool) (h : List Obj) (old new : Id) : Except Err (Id × St) :=
   lp cx fuel assumeModule [] old new { heap := h, cache := [] }
